@@ -6,6 +6,11 @@ HERE = os.path.dirname(os.path.dirname(os.path.abspath(__file__)))
 
 # id -> (category, technique, level text, level note, design ref)
 CHECKS = {
+ "C15": ("exploration",
+         "property-based testing + exhaustive table: metamorphic renaming (token streams equal up to a consistent identifier map), independent reserved-word lists, differential execution of the renamed program",
+         "A program and a consistently renamed copy are compiled for DirectX HLSL, Vulkan HLSL or Metal: every identifier to a fresh plain name; 1-3 entities onto words the target reserves (independent lists: 86 C++14 keywords, 9 Metal address-space / stage keywords, 87 HLSL reserved words; also every word x 11 entity kinds exhaustively in a fixed program); 1-3 entities onto name_N forms that collide with generated overload / template-instance names; one name shared by locals of different functions or fields of different structs. The two outputs must have identical token streams up to identifiers with a consistent per-scope identifier map, fixed identifiers unchanged, plain names verbatim, no emitted user name reserved in the target, no two entities of one scope with the same emitted name, and the renamed program must pass the C01/C02 differential executor. 9 900 cases quick, about 200 000 thorough.",
+         "Reserved-word lists are limited to words every implementation of the target rejects as identifiers; builtin function names are not required to be renamed. RSSL's builtin type names are only used for variables, parameters and members (as type or function names they do not hide the builtin in RSSL itself). Namespaces are not generated.",
+         "DESIGN.md section 3, C15"),
  "C03": ("exploration",
          "property-based testing + exhaustive tables: independent IR type lint of accepted programs; single injected typing violations with valid twins must be rejected",
          "Accepted programs (generated programs with implicit conversions at initialisers, assignments, arguments and returns; every 1-2 operator expression tree on int / float / mixed operands; the repository's .rssl inputs) are type checked and the resulting module is walked by an independent checker with structural types - operand classes and equality for every operator, non-const lvalues for every write, call arity / argument types / out arguments, return types, constructor slots, initialiser shapes, conditions, subscripts, dangling ids - and by RSSL's own get_type asserts. 86 kinds of single typing violations x 15 expression / 5 statement / 3 return contexts x 3 placements (exhaustive on an empty base, random inside generated programs) plus a catalogue of 10 resource-related pairs must be rejected while their valid twins are accepted. 33 000 cases quick, about 400 000 thorough.",
